@@ -102,7 +102,7 @@ def export_programs(sc, name, family, extends='WireFamilies', timeout=1800):
     """Pass 1: TLC enumerates the family as initial states and prints each program as JSON.
     `family` is either a TLA+ set expression or an Init predicate over the variable p
     (text containing "p ="/"p \\in" - recognised by the substring "(p,")."""
-    init = family if '(p,' in family else 'p \\in ' + family
+    init = family if re.search(r'\(p[,)]', family) else 'p \\in ' + family
     mod = ('---- MODULE %s ----\nEXTENDS %s, Json\nVARIABLE p\nInit == %s\nNext == UNCHANGED p\n'
            'Emit == PrintT(ToJson(p))\n====\n') % (name, extends, init)
     cfg = 'INIT Init\nNEXT Next\nINVARIANT Emit\nCHECK_DEADLOCK FALSE\n'
@@ -125,7 +125,7 @@ def compute_expect(sc, name, progs, extends='WireFamilies', timeout=3600, par=No
     """Pass 2: TLC evaluates WireSem on each program (Case(P)); chunks run as parallel TLC processes."""
     if not progs:
         return []
-    par = par or max(1, min(NCPU, (len(progs) + 199) // 200))
+    par = par or max(1, min(NCPU, (len(progs) + 59) // 60))
     size = (len(progs) + par - 1) // par
     chunks = [progs[i:i + size] for i in range(0, len(progs), size)]
 
